@@ -6,6 +6,7 @@ mod gen;
 mod c16;
 mod exprs;
 mod c03;
+mod c03func;
 mod c10;
 mod c12;
 mod queries;
